@@ -138,6 +138,7 @@ func runC19(c *Ctx) {
 	ruleBlockingErrorSend(c, "C19.12")
 	ruleMappingNotReordered(c, "C19.13")
 	ruleSentinelWrapped(c, "C19.14", "storage", "engine", "csvimport")
+	ruleCheckedNameLookup(c, "C19.15", "csvimport.colDataTypes")
 	c.Rule("C19.11", "the stored row reads back as the record's values: the row codec is symmetric per column type (every value the writer emits is consumed by the reader, empty strings included) and its length prefixes are byte lengths (C08.4)")
 	checkCodecPair(c, "C19.11", "storage.(*Tuple).Encode", "storage.(*Tuple).Decode")
 	c.Rule("C19.2", "in the import loop a bad record never stops or alters the others: every error edge before the INSERT (CSV parse error, short record, conversion error) reports and continues; only a non-parse read error or EOF leaves the loop; the short-record guard rejects exactly the records that lack the largest mapped index")
@@ -772,6 +773,7 @@ func runC20(c *Ctx) {
 	// quote from a quote that follows an escaped backslash
 	if has(`'\\'`) {
 		consumes, lookBehind := false, token.NoPos
+		wrongStep := token.NoPos
 		var loopVar types.Object
 		inspectBody(f.Decl.Body, func(x ast.Node) bool {
 			if fs, ok := x.(*ast.ForStmt); ok && loopVar == nil {
@@ -832,6 +834,12 @@ func runC20(c *Ctx) {
 					case *ast.AssignStmt:
 						if id, ok := w.Lhs[0].(*ast.Ident); ok && (f.ObjOf(id) == loopVar || isBoolVar(f, id)) {
 							consumes = true // cur += 1, or an `escaped` state flag
+							// exactly ONE more character belongs to the escape (the loop's own step takes the backslash)
+							if f.ObjOf(id) == loopVar && w.Tok == token.ADD_ASSIGN && len(w.Rhs) == 1 {
+								if cv := f.constOf(w.Rhs[0]); cv != nil && cv.String() != "1" {
+									wrongStep = w.Pos()
+								}
+							}
 						}
 					}
 					return true
@@ -895,6 +903,8 @@ func runC20(c *Ctx) {
 		})
 		key := f.Name + "|escape-consumes-next"
 		switch {
+		case wrongStep.IsValid():
+			c.Fail("C20.1", key, wrongStep, "the split skips more than the one character a backslash escapes: in a literal that ends in an escaped backslash the closing quote is skipped as well, the literal stays open and the terminating ';' is swallowed")
 		case narrowed.IsValid():
 			c.Fail("C20.1", key, narrowed, "the split consumes a backslash together with the next character only for some next characters: `\\\\` in front of a closing quote is then read as a backslash followed by an escaped quote, the literal stays open and the terminating ';' is swallowed — the SQL scanner consumes every escape pair")
 		case lookBehind.IsValid():
